@@ -194,7 +194,8 @@ func (c *Ctx) c33CheckWriter(tpk *types.Package, info *types.Info, fd *ast.FuncD
 		case callIs(info, call, "os", "", "Create") && len(call.Args) == 1:
 			flags, haveFlags = oRDWR|oCREATE|oTRUNC, true
 		case callIs(info, call, "os", "", "OpenFile") && len(call.Args) == 3:
-			flags, haveFlags = constInt(info, call.Args[1])
+			// constant expression, or a local with one definition that is one
+			flags, haveFlags = constInt(info, localDefs(info, fd.Body).resolve1(info, call.Args[1]))
 			if p, ok := constInt(info, call.Args[2]); ok {
 				perm = p
 			} else {
@@ -341,27 +342,61 @@ func (c *Ctx) c33CheckWriter(tpk *types.Package, info *types.Info, fd *ast.FuncD
 	// error of the copy is what the function returns afterwards
 	n++
 	okRet := false
-	if copyErr != nil && copyStmt != nil {
-		idx := topLevelIndex(fd.Body.List, copyStmt)
-		if idx >= 0 && idx == len(fd.Body.List)-2 {
-			if rs, ok := fd.Body.List[idx+1].(*ast.ReturnStmt); ok && len(rs.Results) == 1 {
-				if id, ok := unparen(rs.Results[0]).(*ast.Ident); ok && info.ObjectOf(id) == copyErr {
-					okRet = true
-				}
-			}
-		}
-		// named result form: `_, err = io.Copy(...)` then bare return
-		if !okRet && idx >= 0 && idx == len(fd.Body.List)-2 {
-			if rs, ok := fd.Body.List[idx+1].(*ast.ReturnStmt); ok && len(rs.Results) == 0 && fd.Type.Results != nil {
-				for _, f := range fd.Type.Results.List {
-					for _, rn := range f.Names {
-						if info.ObjectOf(rn) == copyErr {
-							okRet = true
-						}
+	if copyErr != nil && copyStmt != nil && topLevelIndex(fd.Body.List, copyStmt) >= 0 {
+		// every return that follows the copy gives back the copy's error: `return err`, a bare return
+		// with err the named result, or `return nil` where err == nil is established (after
+		// `if …; err != nil { return err }`); err is not reassigned in between
+		namedRes := false
+		if fd.Type.Results != nil {
+			for _, f := range fd.Type.Results.List {
+				for _, rn := range f.Names {
+					if info.ObjectOf(rn) == copyErr {
+						namedRes = true
 					}
 				}
 			}
 		}
+		nRet, nBad := 0, 0
+		walkStack(fd.Body, func(x ast.Node, st []ast.Node) bool {
+			if _, ok := x.(*ast.FuncLit); ok {
+				return false
+			}
+			if as, ok := x.(*ast.AssignStmt); ok && as.Pos() > copyStmt.Pos() {
+				for _, l := range as.Lhs {
+					if id, ok := l.(*ast.Ident); ok && info.ObjectOf(id) == copyErr {
+						nBad++
+					}
+				}
+			}
+			rs, ok := x.(*ast.ReturnStmt)
+			if !ok || rs.Pos() < copyStmt.End() {
+				return true
+			}
+			nRet++
+			switch {
+			case len(rs.Results) == 0 && namedRes:
+			case len(rs.Results) == 1:
+				r := unparen(rs.Results[0])
+				if id, ok := r.(*ast.Ident); ok && info.ObjectOf(id) == copyErr {
+					break
+				}
+				isNilRes := false
+				if tv, ok := info.Types[r]; ok && tv.IsNil() {
+					for _, f := range factsOf(guardsAt(info, st)) {
+						if (c33IsNilTest(info, f.E, copyErr, token.EQL) && f.True) || (c33IsNilTest(info, f.E, copyErr, token.NEQ) && !f.True) {
+							isNilRes = true
+						}
+					}
+				}
+				if !isNilRes {
+					nBad++
+				}
+			default:
+				nBad++
+			}
+			return true
+		})
+		okRet = nRet > 0 && nBad == 0
 	}
 	c.Check(okRet, R, name+":copy-error", fd.Pos(), "%s returns io.Copy's error as its result (a short/failed write must not be reported as success)", name)
 	return n
@@ -490,6 +525,8 @@ func (c *Ctx) c33CheckWriteFile(info *types.Info, fd *ast.FuncDecl) {
 		rk := strings.Replace(key, ":reader:", ":result:", 1)
 		if _, ok := par.(*ast.ReturnStmt); ok {
 			c.OK(R, rk, call.Pos(), "writer's error returned")
+		} else if c33ReturnedNext(info, st, call) {
+			c.OK(R, rk, call.Pos(), "writer's error stored in a local that the next statement returns")
 		} else {
 			c.Viol(R, rk, call.Pos(), "the writer's error is not returned by writeFile (%s): a failed write is reported as success", c.src(par))
 		}
@@ -621,6 +658,11 @@ func (c *Ctx) c33Wiring() {
 			}[arm+":"+s.field]
 			rb, rc := c33Chain(info, s.rhs)
 			gotCls := strings.Join(rc, ".")
+			if want == "Next.Stdin" && !s.tuple && gotCls == "Stdin" && c33IsSuccessorIndex(c, info, rb, s.base) {
+				// <procs>[i+1].Stdin: the successor addressed by index instead of through .Next
+				rb, gotCls = s.base, "Next.Stdin"
+				rc = []string{"Next", "Stdin"}
+			}
 			if s.tuple || len(rc) == 0 || !c.sameExpr(rb, s.base) {
 				c.Viol(R, key, s.as.Pos(), "compile wires %s of a %s process to %s, expected its own %s: output is routed to another stream", s.field, arm, c.src(s.as.Rhs[0]), want)
 				continue
@@ -657,8 +699,7 @@ func (c *Ctx) c33Wiring() {
 // c33FreshSuccessor: in the same case body, before s, `<slice>[idx+1].Stdin = streams.NewStdin()`
 // where s.base is `<slice>[idx]`.
 func (c *Ctx) c33FreshSuccessor(info *types.Info, s c33Store) bool {
-	bi, ok := unparen(s.base).(*ast.IndexExpr)
-	if !ok {
+	if _, ok := unparen(s.base).(*ast.IndexExpr); !ok {
 		return false
 	}
 	// enclosing case clause
@@ -680,19 +721,71 @@ func (c *Ctx) c33FreshSuccessor(info *types.Info, s c33Store) bool {
 			if o.field != "Stdin" || o.tuple {
 				continue
 			}
-			call, ok := o.rhs.(*ast.CallExpr)
+			rhs := o.rhs
+			if id, ok := rhs.(*ast.Ident); ok {
+				// a local defined once, in this very arm, before the store: `pipe := streams.NewStdin()`
+				if d := localDefs(info, &ast.BlockStmt{List: body}).resolve1(info, id); d != ast.Expr(id) && d.Pos() < o.as.Pos() {
+					rhs = d
+				}
+			}
+			call, ok := rhs.(*ast.CallExpr)
 			if !ok || !callIs(info, call, mx("builtins/pipes/streams"), "", "NewStdin") {
 				continue
 			}
-			oi, ok := unparen(o.base).(*ast.IndexExpr)
-			if !ok || !c.sameExpr(oi.X, bi.X) {
-				continue
+			if c33IsSuccessorIndex(c, info, o.base, s.base) {
+				return true
 			}
-			if b, ok := unparen(oi.Index).(*ast.BinaryExpr); ok && b.Op == token.ADD {
-				if v, ok := constInt(info, b.Y); ok && v == 1 && c.sameExpr(b.X, bi.Index) {
-					return true
-				}
-				if v, ok := constInt(info, b.X); ok && v == 1 && c.sameExpr(b.Y, bi.Index) {
+		}
+	}
+	return false
+}
+
+// c33IsSuccessorIndex: e is `X[k+1]` (or `X[1+k]`) where base is `X[k]`.
+func c33IsSuccessorIndex(c *Ctx, info *types.Info, e, base ast.Expr) bool {
+	bi, ok := unparen(base).(*ast.IndexExpr)
+	if !ok {
+		return false
+	}
+	oi, ok := unparen(e).(*ast.IndexExpr)
+	if !ok || !c.sameExpr(oi.X, bi.X) {
+		return false
+	}
+	if b, ok := unparen(oi.Index).(*ast.BinaryExpr); ok && b.Op == token.ADD {
+		if v, ok := constInt(info, b.Y); ok && v == 1 && c.sameExpr(b.X, bi.Index) {
+			return true
+		}
+		if v, ok := constInt(info, b.X); ok && v == 1 && c.sameExpr(b.Y, bi.Index) {
+			return true
+		}
+	}
+	return false
+}
+
+// c33ReturnedNext: call is the whole right-hand side of `v := call` / `v = call` (one variable) and the
+// statement that follows in the same block is `return v`.
+func c33ReturnedNext(info *types.Info, st []ast.Node, call *ast.CallExpr) bool {
+	if len(st) < 3 {
+		return false
+	}
+	as, ok := st[len(st)-2].(*ast.AssignStmt)
+	if !ok || len(as.Lhs) != 1 || len(as.Rhs) != 1 || unparen(as.Rhs[0]) != ast.Expr(call) {
+		return false
+	}
+	id, ok := as.Lhs[0].(*ast.Ident)
+	if !ok {
+		return false
+	}
+	var list []ast.Stmt
+	switch b := st[len(st)-3].(type) {
+	case *ast.BlockStmt:
+		list = b.List
+	case *ast.CaseClause:
+		list = b.Body
+	}
+	for i, s := range list {
+		if s == ast.Stmt(as) && i+1 < len(list) {
+			if rs, ok := list[i+1].(*ast.ReturnStmt); ok && len(rs.Results) == 1 {
+				if rid, ok := unparen(rs.Results[0]).(*ast.Ident); ok && info.ObjectOf(rid) == info.ObjectOf(id) {
 					return true
 				}
 			}
@@ -722,23 +815,38 @@ func c33Arm(info *types.Info, st []ast.Node) (tag, val string, dflt, ok bool) {
 			}
 		}
 	}
-	// if-form: p.NamedPipeX == "const" known true
+	// if-form: p.NamedPipeX == "const" known true; the final else of an if / else-if chain (every
+	// `p.NamedPipeX == "const"` known false, among them the name that has a meaning of its own:
+	// "out" for NamedPipeErr, "err" for NamedPipeOut) is the default arm
+	excluded := map[string]map[string]bool{}
 	for _, f := range factsOf(gs) {
 		b, ok := unparen(f.E).(*ast.BinaryExpr)
-		if !ok || b.Op != token.EQL || !f.True {
+		if !ok || (b.Op != token.EQL && b.Op != token.NEQ) {
 			continue
 		}
+		eq := (b.Op == token.EQL) == f.True
 		for _, fld := range []string{"NamedPipeErr", "NamedPipeOut"} {
-			if isField(info, b.X, c33ProcT, fld) {
-				if v, ok := constString(info, b.Y); ok {
+			for _, pr := range [][2]ast.Expr{{b.X, b.Y}, {b.Y, b.X}} {
+				if !isField(info, pr[0], c33ProcT, fld) {
+					continue
+				}
+				v, ok := constString(info, pr[1])
+				if !ok {
+					continue
+				}
+				if eq {
 					return fld, v, false, true
 				}
-			}
-			if isField(info, b.Y, c33ProcT, fld) {
-				if v, ok := constString(info, b.X); ok {
-					return fld, v, false, true
+				if excluded[fld] == nil {
+					excluded[fld] = map[string]bool{}
 				}
+				excluded[fld][v] = true
 			}
+		}
+	}
+	for fld, special := range map[string]string{"NamedPipeErr": "out", "NamedPipeOut": "err"} {
+		if excluded[fld][special] && excluded[fld][""] {
+			return fld, "", true, true
 		}
 	}
 	return "", "", false, false
@@ -764,16 +872,22 @@ func (c *Ctx) c33CheckRedirects(info *types.Info, fd *ast.FuncDecl) int {
 			p, stored := first[field]
 			return !stored || at <= p
 		}
-		if id, ok := e.(*ast.Ident); ok {
-			o := info.ObjectOf(id)
-			ds := defs[o]
-			if len(ds) == 1 && ds[0] != nil {
-				b, ch := c33Chain(info, ds[0])
-				if len(ch) == 1 && ch[0] == field && c.sameExpr(b, base) {
-					p, stored := first[field]
-					return !stored || ds[0].Pos() < p
-				}
+		// a local (or a short chain of locals) defined once from base.<field> before the first store
+		for hop := 0; hop < 4; hop++ {
+			id, ok := e.(*ast.Ident)
+			if !ok {
+				return false
 			}
+			ds := defs[info.ObjectOf(id)]
+			if len(ds) != 1 || ds[0] == nil {
+				return false
+			}
+			b, ch := c33Chain(info, ds[0])
+			if len(ch) == 1 && ch[0] == field && c.sameExpr(b, base) {
+				p, stored := first[field]
+				return !stored || ds[0].Pos() < p
+			}
+			e = unparen(ds[0])
 		}
 		return false
 	}
@@ -870,9 +984,11 @@ func (c *Ctx) c33CheckRedirects(info *types.Info, fd *ast.FuncDecl) int {
 			for _, f := range factsOf(guardsAt(info, s.stack)) {
 				if b, ok := unparen(f.E).(*ast.BinaryExpr); ok {
 					if (b.Op == token.EQL && f.True) || (b.Op == token.NEQ && !f.True) {
-						if id, ok := unparen(b.Y).(*ast.Ident); ok {
-							if _, isNil := info.ObjectOf(id).(*types.Nil); isNil {
-								okErr = true
+						for _, side := range []ast.Expr{b.X, b.Y} {
+							if id, ok := unparen(side).(*ast.Ident); ok {
+								if _, isNil := info.ObjectOf(id).(*types.Nil); isNil {
+									okErr = true
+								}
 							}
 						}
 					}
@@ -955,8 +1071,20 @@ func (c *Ctx) c33Parse() {
 			var nameObj types.Object
 			for _, a := range st {
 				if rs, ok := a.(*ast.RangeStmt); ok {
-					if id, ok := rs.Value.(*ast.Ident); ok {
+					if id, ok := rs.Value.(*ast.Ident); ok && id.Name != "_" {
 						nameObj = info.ObjectOf(id)
+					} else if kid, ok := rs.Key.(*ast.Ident); ok && kid.Name != "_" {
+						// `for i := range xs { name := xs[i]`: the element held in a local defined once
+						for o, ds := range localDefs(info, rs.Body) {
+							if len(ds) != 1 || ds[0] == nil {
+								continue
+							}
+							if ix, ok := unparen(ds[0]).(*ast.IndexExpr); ok && c.sameExpr(ix.X, rs.X) {
+								if iid, ok := unparen(ix.Index).(*ast.Ident); ok && info.ObjectOf(iid) == info.ObjectOf(kid) {
+									nameObj = o
+								}
+							}
+						}
 					}
 				}
 			}
@@ -1020,11 +1148,23 @@ func (c *Ctx) c33Parse() {
 			if id, ok := rhs.(*ast.Ident); ok && info.ObjectOf(id) == nameObj {
 				whole = true
 			}
-			if se, ok := rhs.(*ast.SliceExpr); ok && se.High == nil && se.Max == nil {
-				if id, ok := unparen(se.X).(*ast.Ident); ok && info.ObjectOf(id) == nameObj {
-					if k, ok := constInt(info, se.Low); ok && k == 1 {
-						tail = true
-					}
+			isNameId := func(e ast.Expr) bool {
+				id, ok := unparen(e).(*ast.Ident)
+				return ok && nameObj != nil && info.ObjectOf(id) == nameObj
+			}
+			if se, ok := rhs.(*ast.SliceExpr); ok && se.Max == nil && se.Low != nil && isNameId(se.X) {
+				highOK := se.High == nil
+				if lc, ok := isBuiltinCall(info, se.High, "len"); se.High != nil && ok && len(lc.Args) == 1 && isNameId(lc.Args[0]) {
+					highOK = true // name[1:len(name)]
+				}
+				if k, ok := constInt(info, se.Low); ok && k == 1 && highOK {
+					tail = true
+				}
+			}
+			if call, ok := rhs.(*ast.CallExpr); ok && callIs(info, call, "strings", "", "TrimPrefix") && len(call.Args) == 2 && isNameId(call.Args[0]) {
+				// under name[0]=='!' (checked by bang below) TrimPrefix(name, "!") is name[1:]
+				if p, ok := constString(info, call.Args[1]); ok && p == "!" {
+					tail = true
 				}
 			}
 			key := "parseRedirection:" + fld
@@ -1219,6 +1359,7 @@ func (c *Ctx) c33Exec() {
 	info := pk.TypesInfo
 	n := 0
 	ord := map[string]int{}
+	execDefs := localDefs(info, fd.Body)
 	ast.Inspect(fd.Body, func(x ast.Node) bool {
 		as, ok := x.(*ast.AssignStmt)
 		if !ok || len(as.Lhs) != len(as.Rhs) {
@@ -1236,7 +1377,7 @@ func (c *Ctx) c33Exec() {
 			if ord[f] > 1 {
 				key += "#" + string(rune('0'+ord[f]))
 			}
-			rhs := unparen(as.Rhs[i])
+			rhs := execDefs.resolve1(info, as.Rhs[i])
 			if call, ok := rhs.(*ast.CallExpr); ok && len(call.Args) == 0 {
 				if se, ok := call.Fun.(*ast.SelectorExpr); ok && se.Sel.Name == "File" {
 					rhs = unparen(se.X)
